@@ -443,6 +443,34 @@ def gTxInitOf (t : Tx) (listed : Bool) (pNone : Bool) (p : Proposal) (plNone : B
       | "allInitialized" => !(p.init == .none || p.init == .opened)
       | _ => false }
 
+/-- the state `reconcileInitialize` reads while it creates the proposals of a ROLLBACK transaction
+    (`Status.Proposals` not yet listed): the transaction, whether the rolled-back transaction exists
+    (`tgtNone`) and is itself a rollback (`tgtRb`), whether the proposal of the (one) target already
+    exists (`pNone` = not found), the previous transaction of the log -/
+def gTxInitRbOf (t : Tx) (pNone : Bool) (tgtNone : Bool) (tgtRb : Bool) (plNone : Bool) (pl : Tx) : V2G :=
+  { n := fun k =>
+      match k with
+      | "transaction.Index" => t.index
+      | "transaction.Status.Phases.Initialize.State" => phCode t.init
+      | "prevTransaction.Status.Phases.Initialize.State" => phCode pl.init
+      | "details.Rollback.RollbackIndex" => t.rollbackIndex
+      | k => constCode k
+    b := fun k =>
+      match k with
+      | "transaction.Status.Proposals != nil" => false
+      | "transaction.Details.() is *configapi.Transaction_Change" => false
+      | "transaction.Details.() is *configapi.Transaction_Rollback" => true
+      | "err@r.transactions.GetByIndex#2" => tgtNone
+      | "errors.IsNotFound(err)@r.transactions.GetByIndex#2" => true
+      | "targetTransaction.Details.() is *configapi.Transaction_Change" => !tgtRb
+      | "targetTransaction.Details.() is *configapi.Transaction_Rollback" => tgtRb
+      | "err@r.proposals.Get#2" => pNone
+      | "errors.IsNotFound(err)@r.proposals.Get#2" => true
+      | "prevTransaction.Status.Phases.Initialize != nil" => pl.init != .none
+      | "err@r.transactions.GetByIndex#1" => plNone
+      | "errors.IsNotFound(err)@r.transactions.GetByIndex#1" => true
+      | _ => false }
+
 /-- Notes.  The loop flags (`allValidated`, …) are locals: their assignments are tokens of the
     skeleton (a dropped `= false` changes it); that a read of the flag after the loop sees what the
     single iteration assigned is Go's semantics of a local variable, stated in the table.
@@ -468,8 +496,14 @@ def txUpdToks : TxUpd → List Tok
 def effToksTx : Effect → List Tok
   | .tx _ _ u => txUpdToks u ++ [.write "r.updateTransactionStatus"]
   | .prop _ _ u => propUpdToks u ++ [.write "r.updateProposalStatus"]
-  | .createProp p => [.setN "proposal.ID" 0, .setN "proposal.TransactionIndex" p.index, .setN "proposal.TargetID" 0,
-      .setN "proposal.Details.Change.Values" 0, .setN "proposal.TargetTypeVersion" 0, .write "r.proposals.Create"]
+  | .createProp p =>
+      if p.isRollback then
+        [.setN "proposal.ID" 0, .setN "proposal.TransactionIndex" p.index, .setN "proposal.TargetID" 0,
+          .setN "proposal.Details.Rollback.RollbackIndex" p.rollbackOf, .set "proposal.TargetTypeVersion" "*targetTypeVersion",
+          .write "r.proposals.Create"]
+      else
+        [.setN "proposal.ID" 0, .setN "proposal.TransactionIndex" p.index, .setN "proposal.TargetID" 0,
+          .setN "proposal.Details.Change.Values" 0, .setN "proposal.TargetTypeVersion" 0, .write "r.proposals.Create"]
   | _ => [.misc "foreign effect"]
 
 def planTraceTx (pl : Plan) : List Tok :=
